@@ -4,6 +4,7 @@ from __future__ import annotations
 import faulthandler
 import importlib
 import json
+import os
 import sys
 import traceback
 import warnings
@@ -21,8 +22,28 @@ def main() -> int:
     mod = importlib.import_module(f"qv.props.{prop.lower()}")
     try:
         res = mod.run(spec)
-    except Exception:  # harness failure -> shard dies -> inconclusive
+    except Exception as ex:
         traceback.print_exc()
+        # Checks whose shards hand the package nothing but inputs inside the statement's domain (and that complete
+        # without an exception on the pinned tree) declare PACKAGE_RAISE_IS_VIOLATION: an exception raised from
+        # package code is then the package failing on an in-domain input.  Anything else is a harness failure:
+        # the shard dies and the run is inconclusive.
+        tb = traceback.extract_tb(ex.__traceback__)
+        inner = tb[-1] if tb else None
+        if getattr(mod, "PACKAGE_RAISE_IS_VIOLATION", False) and inner is not None and os.path.abspath(inner.filename).startswith(os.path.abspath(env.SRC) + os.sep):
+            where = f"{os.path.relpath(inner.filename, env.SRC)}:{inner.name}"
+            res = {
+                "name": spec.get("name"),
+                "evaluations": 1,
+                "counters": {"package_raised": 1},
+                "cases": [],
+                "samples": [],
+                "inconclusive": [],
+                "violations": [{"key": f"{prop.upper()}/package-raised/{type(ex).__name__}@{where}", "what": f"the package raised {type(ex).__name__}: {ex} on an input inside the statement's domain"[:300], "witness": {"traceback": traceback.format_exc()[-900:]}}],
+            }
+            with open(out_file, "w") as fh:
+                json.dump(res, fh, default=str)
+            return 0
         return 3
     res.setdefault("name", spec.get("name"))
     with open(out_file, "w") as fh:
